@@ -193,6 +193,8 @@ func (s *Session) Exec(line string) (obs string, viol string) {
 			lastSessionMaxInflight = s.lastMaxInflight
 		}
 		return o, v
+	case "twostore":
+		return s.execTwoStore(int(num(1)))
 	case "new":
 		r := mast.NewRoot(createOpts(s.Cfg))
 		m, err := r.LoadMast(s.ctx, s.remoteConfig())
@@ -315,6 +317,16 @@ func (s *Session) Exec(line string) (obs string, viol string) {
 			viol = "iteration yields " + l + ", live entries are " + want
 		}
 		return l, viol
+	case "thresholds":
+		m := tree(1)
+		if m == nil {
+			return "bad-slot", ""
+		}
+		// internal state, compared with the model only (a disagreement breaks the correspondence
+		// and starts the search for two histories with different roots; it is not itself a
+		// violation of C04)
+		ga, sb := mast.VerifThresholds(m)
+		return fmt.Sprintf("%d %d", ga, sb), ""
 	case "stat":
 		m := tree(1)
 		if m == nil {
@@ -467,7 +479,7 @@ func (s *Session) ModelLine(line string) string {
 	if t[0] == "hsync" {
 		return s.lastHsync
 	}
-	if t[0] == "vcheck" {
+	if t[0] == "vcheck" || t[0] == "twostore" {
 		return "echo ok"
 	}
 	if t[0] == "flush" {
